@@ -156,6 +156,7 @@ fn judge(o: &mut CaseOutcome, tree: &Tree, files: &[(String, Vec<u8>)], fr: &Fau
 pub fn check(case: &C08Case) -> CaseOutcome
 {
     let mut o = CaseOutcome::default();
+    let _cfg_form = crate::sandbox::ConfigFormGuard::new((crate::engine::hash_of(case) % 3) as u8);
     let (tree, files, _missing, _) = case.tree.render();
     let r = fault_run(&tree, false, None, None);
     o.evals = 1;
